@@ -90,8 +90,20 @@ func TryAssertDirectory(path string) (AssertedPath, error) {
 }
 
 func (ap AssertedPath) EnsureCleared() AssertedPath {
-	// Just remove the path and recreate it, simpler and faster than iterating through the directory
-	os.RemoveAll(ap.Path)
+	// Remove what is inside the path rather than the path itself: os.RemoveAll refuses "." and any
+	// path ending in "/." outright, and with its error dropped such a directory was silently left as it was.
+	if entries, err := os.ReadDir(ap.Path); err == nil {
+		for _, entry := range entries {
+			if err := os.RemoveAll(filepath.Join(ap.Path, entry.Name())); err != nil {
+				slog.Error("Failed to clear directory", "path", ap.Path, "entry", entry.Name(), "error", err)
+				panic(err)
+			}
+		}
+	} else if err := os.RemoveAll(ap.Path); err != nil {
+		// Not a directory we can list (e.g. a plain file in the way): remove it as a whole
+		slog.Error("Failed to clear path", "path", ap.Path, "error", err)
+		panic(err)
+	}
 
 	if ap.createdAsDir {
 		if err := assertPath(ap.Path, true); err != nil {
